@@ -175,7 +175,7 @@ func init() {
 			"(one Store through the FileSystem backend, uid 65534) runs under a ptrace tracer that follows all threads and numbers, in one global order, the entry and exit stops of every file-system syscall touching the store directory. A fault-free run fixes the stop sequence; then the child is SIGKILLed at EVERY stop, " +
 			"and for every write to a file in the directory at each chosen prefix length (quick: 0,1,2,3, every top-level field boundary of the protobuf encoding +-1, half, len-2, len-1, padded to >=48 PRNG-chosen prefixes; thorough: EVERY prefix for documents <=8 KB, 4096 stratified prefixes at 64 KB) " +
 			"the length register is rewritten at the syscall entry, the kernel performs the short write and the child is killed at the exit. After each trial a fresh process retrieves the target id and two bystander ids; the outcome must be the complete old document, the complete new one, or an error return " +
-			"(a retriever that dies is a violation with its own signature), bystanders must be intact. A file-system syscall the tracer does not understand makes the run inconclusive. distinct = (scenario, size, stop or prefix); non-trivial = trial in which the child was actually killed inside the store.",
+			"(a retriever that dies is a violation with its own signature), a later Store of a shorter document under the same identifier must be retrievable complete, bystanders must be intact. A file-system syscall the tracer does not understand makes the run inconclusive. distinct = (scenario, size, stop or prefix); non-trivial = trial in which the child was actually killed inside the store.",
 		Assumptions: []string{"process death only (the page cache survives); power loss and fsync ordering are outside the statement", "amd64 Linux ptrace; the stop enumeration is exhaustive for the syscall sequence the fault-free run exhibits"},
 		NCases:      func(tier string) int { return len(c20Plan(tier)) },
 		Case:        c20Case,
@@ -206,7 +206,9 @@ func c20Case(c *core.C) {
 	}
 	oldDoc, newDoc := c20Doc(target, "old", oldSize), c20Doc(target, "new", newSize)
 	by1, by2 := c20Doc("urn:uuid:bystander-1", "by1", 300), c20Doc("urn:uuid:bystander-2", "by2", 2000)
-	files := map[string]*sbom.Document{"old.pb": oldDoc, "new.pb": newDoc, "by1.pb": by1, "by2.pb": by2}
+	// the document stored AFTER the crash: shorter than both, and one variant with metadata only
+	laterDoc := c20Doc(target, "later", 60)
+	files := map[string]*sbom.Document{"old.pb": oldDoc, "new.pb": newDoc, "by1.pb": by1, "by2.pb": by2, "later.pb": laterDoc}
 	for name, d := range files {
 		b, _ := proto.Marshal(d)
 		writeFileAll(filepath.Join(base, name), b)
@@ -289,6 +291,29 @@ func c20Case(c *core.C) {
 		default:
 			c.Violatef("retrieve-shape:"+got.kind, det, "scenario %s, crash at %s: Retrieve returned %s %s", sc.name, label, got.kind, got.msg)
 			return res, false
+		}
+		// recovery: a later store of the same identifier (a shorter document) must succeed and be retrievable complete
+		if res.Killed && !sc.noClobber {
+			st := runChild(true, "storeone", "-dir", wstore, "-docfile", filepath.Join(base, "later.pb"))
+			c.Evals(1)
+			switch st.kind {
+			case "OK":
+				g2 := runChild(true, "retrieveone", "-dir", wstore, "-idfile", filepath.Join(base, "target.id"))
+				if g2.kind != "DOC" || !proto.Equal(g2.doc, laterDoc) {
+					what := g2.kind + " " + g2.msg
+					if g2.kind == "DOC" {
+						what = fmt.Sprintf("a different document (%d nodes, name %q): %s", len(g2.doc.GetNodeList().GetNodes()), g2.doc.GetMetadata().GetName(), firstDiffDeep(laterDoc, g2.doc))
+					}
+					c.Violatef("store-after-crash-not-retrievable:"+sc.name, det, "scenario %s, crash at %s, then a successful Store of a shorter document under the same identifier: Retrieve returned %s", sc.name, label, what)
+					return res, false
+				}
+				c.Cover("outcome:later-store-complete")
+			case "ERR":
+				c.Cover("outcome:later-store-error-return")
+			default:
+				c.Violatef("store-after-crash-died:"+sc.name, det, "scenario %s, crash at %s: a later Store terminated the process (%s)", sc.name, label, st.msg)
+				return res, false
+			}
 		}
 		if sc.dirExists {
 			for _, by := range []struct {
